@@ -889,7 +889,9 @@ func (e *Enc) run() (err error) {
 	if e.fc != nil {
 		for i, cl := range e.fc.Ensures {
 			if cl.At != "" && !e.ensuresAtSeen[i] {
-				panic(fmt.Errorf("contract error (%s ensures#%d): no return of the function is on a line containing %q", e.key, i+1, cl.At))
+				// not an error: the return the clause speaks about is gone (the other clauses still
+				// bind every remaining return); reported in the evidence
+				e.warnings = append(e.warnings, fmt.Sprintf("ensures#%d applies at returns on a line containing %q: there is no such return", i+1, cl.At))
 			}
 		}
 		for i, cl := range e.fc.Asserts {
